@@ -121,6 +121,13 @@ def one_case(ctx, li, spec, ops, s, args):
             ctx.evaluations += 1
     distinct = set(outs.values())
     ctx.count("schedules", len(outs))
+    for name, o in outs.items():
+        last = o.split(" | ")[-1]
+        if "Internal(" in last or ":X:" in last:
+            ctx.fail(f"{I.schema_src(s, spec)} applied to {[I.term_sexp(a[1]) for a in args]}: under re-check order `{name}` inference fails with {last}",
+                {"check": "internal-error-under-schedule", "error": last.split(":", 1)[1]},
+                {"lang": spec.to_json(), "schema": s, "args": args, "outcomes": {k: v.split(" | ")[-1] for k, v in outs.items()}})
+            break
     if len(distinct) > 1:
         kinds = {fail_kind(o) for o in distinct}
         allfail = all(k is not None for k in kinds)
